@@ -107,6 +107,12 @@ TABLE: List[Entry] = [
     ("R-SENTINEL", "first_not_instantiated", None, {"C04", "C10", "C16"}),
     ("R-SENTINEL", None, "returns-non-decision-domain", {"C01", "C02", "C04", "C09", "C16"}),
     ("R-SENTINEL", None, None, {"C04", "C16"}),
+    # a given of the model dropped / an argument replaced by its default: the model solved is not the model written (C13); what is
+    # reported still satisfies the constraints that were posted
+    ("R-OPTIONAL-ZERO", None, "element-truthiness", {"C13"}),
+    ("R-OPTIONAL-ZERO", None, "given-argument-overwritten", {"C13"}),
+    # groundness tested for the variables' domains only: the vector reported is an assignment all the same (C01, C03 unaffected)
+    ("R-SOLVED", None, "all-domains", {"C02"}),
     ("R-OPTIONAL-ZERO", None, None, {"C01", "C02", "C03", "C13"}),
     # solving a model leaves it as written: reuse (C15), re-optimisation (C03), the rewritten model compared with the original (C13)
     ("R-PROBLEM-READONLY", None, "writes-model-array", {"C01", "C03", "C13", "C15"}),
